@@ -27,7 +27,7 @@ Inductive kvent :=
 | KBad (c : N)
 | KOther (c : N).
 
-Record c07_case := C07Case { c_steps : list entry; c_kv : list kvent }.
+Record c07_case := C07Case { c_compact : bool; c_steps : list entry; c_kv : list kvent }.
 
 (* ---- equality of observations ------------------------------------------------------------ *)
 
@@ -59,6 +59,7 @@ Definition out_eqb (a b : out) : bool :=
   | XNO n, XNO n' => option_eqb N.eqb n n'
   | XTriple t, XTriple t' => option_eqb triple_eqb t t'
   | XPairs l, XPairs l' => list_eqb npair_eqb l l'
+  | XBatch l, XBatch l' => list_eqb triple_eqb l l'
   | _, _ => false
   end.
 
@@ -71,7 +72,8 @@ Definition sum_eqb {A} (eqb : A -> A -> bool) (a b : A + N) : bool :=
 
 Definition dump_eqb (a b : dump) : bool :=
   match a, b with
-  | D c l r, D c' l' r' => (c =? c') && sum_eqb N.eqb l l' && sum_eqb msgs_eqb r r'
+  | D c l r n, D c' l' r' n' =>
+    (c =? c') && sum_eqb N.eqb l l' && sum_eqb (list_eqb triple_eqb) r r' && sum_eqb msgs_eqb n n'
   end.
 
 (* ---- correspondence: model vs implementation ------------------------------------------------ *)
@@ -127,7 +129,7 @@ Fixpoint all2 {A B} (f : A -> B -> bool) (a : list A) (b : list B) : bool :=
   end.
 
 Definition C07_mismatch (c : c07_case) : bool :=
-  let '(st, tr) := xrun (map entry_op (c_steps c)) in
+  let '(st, tr) := xrun (c_compact c) (map entry_op (c_steps c)) in
   negb (all2 entry_agrees (c_steps c) tr && kv_agree (c_kv c) (st_kv _ st)).
 
 (* ---- the specification: a plain sequential log per channel ------------------------------------ *)
@@ -281,10 +283,24 @@ Definition spec_check_read (s : aspec) (o : op) (x : out) : bool :=
 Definition all_le (t : N) (rows : list arow) : bool := forallb (fun a => m_seq (a_msg a) <=? t) rows.
 Definition none_le (t : N) (rows : list arow) : bool := forallb (fun a => negb (m_seq (a_msg a) <=? t)) rows.
 
+(* StoreAppendBatch: item by item; an accepted item appends at its channel's log end *)
+Fixpoint spec_batch (s : aspec) (items : list (N * N * list rec)) (rs : list (N * N * N)) : option aspec :=
+  match items, rs with
+  | [], [] => Some s
+  | (c, _, recs) :: items', (e, base, last) :: rs' =>
+    if e =? 0 then
+      if (base =? al_leo (as_log s c)) && (last =? base + N.of_nat (length recs))
+      then spec_batch (spec_append s c (msgs_from c (base + 1) recs)) items' rs'
+      else None
+    else spec_batch s items' rs'
+  | _, _ => None
+  end.
+
 (* the plain log's reaction to a mutation the implementation reported as [x];
    None = the reported result is impossible for a sequential log *)
 Definition spec_mutate (s : aspec) (o : op) (x : out) : option aspec :=
   match o, x with
+  | OCBatch items, XBatch rs => spec_batch s items rs
   | (OAppend _ _ _ _ | OApply _ _ _ _ _ | OCApp _ _ _ | OTrunc _ _ | OCTrunc _ _ | OTrim _ _ _ _
      | OCkpt _ _ _ _ | OCkptM _ _ _ _ _ _), XErr _ => Some s
   | OAppend c _ base recs, XApp b l n =>
@@ -341,10 +357,20 @@ Definition spec_mutate (s : aspec) (o : op) (x : out) : option aspec :=
   | _, _ => None
   end.
 
-(* after a step the dumped channels must show exactly the plain log *)
-Definition spec_check_dump (s : aspec) (d : dump) : bool :=
+(* after a step the dumped channel must show exactly the plain log: the log
+   end, every row (seq, id, payload hash), and the freshly appended rows with
+   every field *)
+Definition mcompact (m : msg) : N * N * N := (m_seq m, m_id m, m_hash m).
+
+Definition spec_check_dump (s : aspec) (nr : option (N * Z)) (d : dump) : bool :=
   match d with
-  | D c (inl leo) (inl rows) => (leo =? al_leo (as_log s c)) && msgs_eqb rows (amsgs (as_log s c))
+  | D c (inl leo) (inl rows) (inl news) =>
+    (leo =? al_leo (as_log s c))
+    && list_eqb triple_eqb rows (map mcompact (amsgs (as_log s c)))
+    && msgs_eqb news (match nr with
+                      | None => []
+                      | Some (f, n) => spec_read (as_log s c) f n 0
+                      end)
   | _ => false
   end.
 
@@ -356,7 +382,7 @@ Definition spec_step (s : aspec) (e : entry) : option aspec :=
     if is_read o then (if spec_check_read s o x then Some s else None)
     else match spec_mutate s o x with
          | None => None
-         | Some s' => if forallb (spec_check_dump s') ds then Some s' else None
+         | Some s' => if forallb (spec_check_dump s' (new_range o x)) ds then Some s' else None
          end
   end.
 
